@@ -5,6 +5,7 @@ func init() {
 		ID:    "C12",
 		Title: "Go data passed to a render is visible in the template with the same structure",
 		Rules: []string{
+			"R-ESCAPE (printing): no String method of package object calls a trimming, replacing, case-mapping, escaping or UTF-8 repairing function",
 			"R-KWTABLE: the keyword table holds exactly true, false, nil and in (any other word there is a data key that cannot be named)",
 			"R-FORMAT: no rendered text is used as a printf format (strings print their exact bytes)",
 			"R-DOTKW: the parse function registered for the dot, by cases on the abstract parser: an identifier and every keyword token is a name after the dot; a non-name is an error",
@@ -23,6 +24,7 @@ func init() {
 		NotDecided:  "TODO",
 		Assumptions: trustedBase,
 		Run: func(m *Model, s *Sink) {
+			m.RunObjString(s, "R-ESCAPE") // strings print their exact bytes: printing an object does not rewrite its text
 			m.RunKeywordTable(s, "R-KWTABLE")                                // no data key is shadowed by a keyword other than true, false, nil, in
 			m.RunFormat(s, "R-FORMAT", m.reachableFns(m.Roots().Render))     // a percent sign in a data string is not a verb
 			m.RunDotKeywords(s, "R-DOTKW")                                   // a field or key spelled like a keyword is reachable with dot syntax
